@@ -291,4 +291,93 @@ theorem runEv_inv (cfg : Cfg) (evs : List Ev) :
       exact ih (crash s t) (crash_inv cfg s t h hc.1) hc.2 hd
 
 end Dist
+namespace Local
+
+/-- An exception ending thread `t` anywhere but between the service's answer and the assignment of the id keeps the
+invariant of the in-process protocol (the `with` block releases the lock on the way out). -/
+theorem crash_inv (cfg : Cfg) (s : State) (t : Nat) (hI : Inv cfg s) (hw : inWindow (s.pc t) = false) :
+    Inv cfg (crash s t) := by
+  have hL := hI.lk
+  have hpt := hI.pcs t
+  by_cases hcs : inCS (s.pc t) = true
+  · -- inside the block: the lock is released
+    have hold : s.locks (s.mylock t) = some t := hL.holds t hcs
+    have hsel : s.slot = some (s.mylock t) := hL.sel t (usesLock_of_inCS hcs)
+    have hfree : s.uploadId = 0 → s.creates = 0 := by
+      intro hu
+      cases hp : s.pc t <;> rw [hp] at hpt hcs hw <;> simp [inCS, inWindow] at hcs hw <;> simp only [PCok] at hpt
+      · exact hpt hu
+      · exact hpt.2
+      · exact hpt.2
+      · rw [hpt.2] at hu; exact absurd hu (by decide)
+      · exact hpt.2
+    simp only [crash, hold, if_true]
+    refine ⟨hI.ids, ?_, ⟨?_, ?_, ?_⟩, ?_, hI.calls, hI.count⟩
+    · intro _ hu; exact hfree hu
+    · intro t'
+      by_cases h : t' = t
+      · rw [h]; simp [usesLock]
+      · simp only [goto_pc_other _ _ h]; exact hL.sel t'
+    · intro t'
+      by_cases h : t' = t
+      · rw [h]; simp [inCS]
+      · simp only [goto_pc_other _ _ h]
+        intro hc
+        simp only [setHolder_pc] at hc
+        exact absurd hc (by rw [hL.others_outside hcs t' h]; simp)
+    · intro l' h hl'
+      simp only [goto_locks] at hl'
+      by_cases e : l' = s.mylock t
+      · subst e; rw [setHolder_self] at hl'; exact absurd hl' (by simp)
+      · rw [setHolder_other _ _ e] at hl'
+        have := (hL.only l' h hl').1
+        rw [hsel] at this
+        exact absurd (Option.some.inj this).symm e
+    · intro t'
+      by_cases h : t' = t
+      · rw [h, goto_pc_self]; trivial
+      · rw [goto_pc_other _ _ h]
+        exact PCok_mono (s := s) rfl rfl (fun _ hc => hc) (hI.pcs t')
+  · -- outside the block: the thread holds nothing
+    have hcs' : inCS (s.pc t) = false := by simpa using hcs
+    have hnh : s.locks (s.mylock t) ≠ some t := fun h => by
+      have := (hL.only _ _ h).2
+      rw [hcs'] at this; exact absurd this (by simp)
+    simp only [crash, hnh, if_false]
+    refine ⟨hI.ids, hI.free, ⟨?_, ?_, ?_⟩, ?_, hI.calls, hI.count⟩
+    · intro t'
+      by_cases h : t' = t
+      · rw [h]; simp [usesLock]
+      · simp only [goto_pc_other _ _ h]; exact hL.sel t'
+    · intro t'
+      by_cases h : t' = t
+      · rw [h]; simp [inCS]
+      · simp only [goto_pc_other _ _ h]; exact hL.holds t'
+    · intro l h hl
+      have := hL.only l h hl
+      refine ⟨this.1, ?_⟩
+      by_cases e : h = t
+      · rw [e, hcs'] at this; exact absurd this.2 (by simp)
+      · simp only [goto_pc_other _ _ e]; exact this.2
+    · intro t'
+      by_cases h : t' = t
+      · rw [h, goto_pc_self]; trivial
+      · rw [goto_pc_other _ _ h]
+        exact PCok_mono (s := s) rfl rfl (fun _ hc => hc) (hI.pcs t')
+
+theorem runEv_inv (cfg : Cfg) (hr : cfg.recheck = true) (ha : cfg.atomicLock = true) (evs : List Ev) :
+    ∀ s, Inv cfg s → crashesOutsideWindow cfg s evs = true → Inv cfg (runEv cfg s evs) := by
+  induction evs with
+  | nil => intro s h _; exact h
+  | cons e rest ih =>
+    intro s h hc
+    cases e with
+    | step t =>
+      have hc' : crashesOutsideWindow cfg (step cfg s t) rest = true := by simpa [crashesOutsideWindow] using hc
+      exact ih (step cfg s t) (step_inv cfg hr ha s t h) hc'
+    | crash t =>
+      simp only [crashesOutsideWindow, Bool.and_eq_true, Bool.not_eq_true'] at hc
+      exact ih (crash s t) (crash_inv cfg s t h hc.1) hc.2
+
+end Local
 end OdcGeo.C18
